@@ -1,0 +1,17 @@
+//go:build verif && go1.18
+// +build verif,go1.18
+
+package cache
+
+// VerifKeyLocks returns the number of per-key build locks currently held.
+func (f *FailoverOf[V]) VerifKeyLocks() int {
+	f.lock.Lock()
+	defer f.lock.Unlock()
+
+	return len(f.keyLocks)
+}
+
+// VerifCleanup runs one janitor cycle (delete expired + optional eviction) synchronously.
+func (c *ShardedMapOf[V]) VerifCleanup() {
+	c.t.invokeCleanup()
+}
